@@ -12,6 +12,7 @@ def main(tier):
     kernels.barycentric(P, rep)
     dep.surface_fallback(P, rep)
     dep.surface_pairing(P, rep)    # consumers: the depth listed at a point reaches the model that uses it
+    rep.attempt(dep.depth_defaults, P, rep)      # unlisted polygon corners get the documented default
     rep.assumptions.append("the Delaunay triangulation (third-party delaunator) is NOT decided; of the in-triangle tolerances only their form (slack proportional to machine epsilon) is")
     # the answer does not depend on what was queried before (no cache that outlives a query: a necessary condition for a
     # statement about 'all worlds and all points', which includes a second world in the same process)
